@@ -39,6 +39,7 @@ def run(chk):
                       "differs from the implementation on a history with unique optima: " + d[:600],
                       tc.replay_obj(data["hists"][k], d[:1500]), found_input=False)
         found = True
+    found = tc.visual_report(chk, "C01", data, found)
     tc.report_correspondence(chk, "C01", data, found)
     # the same output contract on the VISUAL trackers (VisualSort, BatchVisualSort): oracle applied directly to the
     # implementation's records, ties included (tools/props/visual_c01.py)
